@@ -32,6 +32,68 @@ type StructResult struct {
 	Detail string
 }
 
+// groupCoverage: a function that is proved in clause groups (UnitOpts.Groups) must have every labelled
+// loop invariant and assert@ clause of its contract in the groups of at least one unit; a label that no
+// unit selects would otherwise silently never be checked (and an assumed group never be proved).
+func groupCoverage(e *vc.Engine, units []UnitPlan) []StructResult {
+	byFunc := map[string][]vc.UnitOpts{}
+	grouped := map[string]bool{}
+	var order []string
+	for _, u := range units {
+		if _, ok := byFunc[u.Func]; !ok {
+			order = append(order, u.Func)
+		}
+		byFunc[u.Func] = append(byFunc[u.Func], u.Opts)
+		if len(u.Opts.Groups) > 0 && !u.Opts.AssertsOnly {
+			grouped[u.Func] = true
+		}
+	}
+	var out []StructResult
+	for _, fn := range order {
+		ct := e.Specs.Contracts[fn]
+		if !grouped[fn] || ct == nil {
+			continue
+		}
+		labels := map[string]bool{}
+		for _, c := range ct.LoopInv {
+			labels[c.Label] = true
+		}
+		for _, ls := range ct.Loops {
+			for _, c := range ls.Invariants {
+				labels[c.Label] = true
+			}
+		}
+		assertOnly := map[string]bool{}
+		for _, a := range ct.Asserts {
+			if !a.Assume {
+				if !labels[a.Label] {
+					assertOnly[a.Label] = true
+				}
+				labels[a.Label] = true
+			}
+		}
+		var missing []string
+		for l := range labels {
+			if l == "" || strings.HasPrefix(l, "locks-") {
+				continue
+			}
+			ok := false
+			for _, o := range byFunc[fn] {
+				if (!o.AssertsOnly || assertOnly[l]) && o.Proves(l) {
+					ok = true
+				}
+			}
+			if !ok {
+				missing = append(missing, l)
+			}
+		}
+		sort.Strings(missing)
+		out = append(out, StructResult{Name: fn + "/groups/every labelled clause is proved by some unit", OK: len(missing) == 0,
+			Detail: "labelled clauses selected by no unit of the plan: " + strings.Join(missing, ", ")})
+	}
+	return out
+}
+
 type Plan struct {
 	// BoundedRun: labelled bounded stand-ins (exhaustive runs of the real code within a stated bound) for
 	// functions the contracts cannot reach; reported separately, never counted as proved.
@@ -318,8 +380,12 @@ func Check(id, tier string, seed int) int {
 			violations = append(violations, line)
 		}
 	}
+	structural := groupCoverage(e, p.Units)
 	if p.Structural != nil {
-		for _, sr := range p.Structural(e) {
+		structural = append(structural, p.Structural(e)...)
+	}
+	if len(structural) > 0 {
+		for _, sr := range structural {
 			if k, ok := knownByName[sr.Name]; ok {
 				nKnown++
 				if !sr.OK {
